@@ -1351,12 +1351,14 @@ def oracle_options(raw: dict, rows_json: T.Optional[list] = None, observed: T.Op
     for o in (raw['observed'] if observed is None else observed):
         q = o['sub'] + ':' + o['name']
         if o['kind'] == 'b':
-            if q in rows:
-                name = q
-            elif o['name'].startswith('build.') and o['name'] not in rows:
-                name = o['name'][len('build.'):]    # native build: the build machine is the host machine
-            else:
-                name = o['name']
+            nm = o['name']
+            if nm.startswith('build.') and nm not in rows and q not in rows:
+                # native build: the build machine is the host machine, so what the project read is described by the
+                # host rows -- its own `P:name` row when there is one (since repair e80961b `-D:c_args` does create
+                # `:c_args`), else the global row
+                nm = nm[len('build.'):]
+                q = o['sub'] + ':' + nm
+            name = q if q in rows else nm
         else:
             name = o['name'] if o['sub'] == '' else q
         vals = rows.get(name)
